@@ -83,6 +83,14 @@ LineFails(ln) ==
       [] ln.ev = "dec_snap" -> DecSnapFails(ln)
       [] ln.ev = "enc_snap" -> EncSnapFails(ln)
       [] ln.ev = "dec_seg" -> DecSegFails(ln)
+      [] ln.ev = "open_index" ->
+            \* Cas::open on a crafted snapshot: never a panic; accepted exactly when the snapshot decodes, is not empty
+            \* and its keys decode for the key type; the index then holds one entry per distinct key
+            LET r == DecSnap(ln.bytes)
+                good == ln.bytes # <<>> /\ r.st = "ok" /\ ln.utf8_ok IN
+            UNION { FailT(ln.st # "panic", "C16:open-crafted-index-panic"),
+                    FailT((ln.st = "ok") = good, "C16:open-crafted-index-accept-reject"),
+                    IF ln.st = "ok" /\ good THEN FailT(ln.n = Cardinality(r.ents), "C16:open-crafted-index-entries") ELSE {} }
       [] ln.ev = "snaprt" -> FailT(ln.st = "ok" /\ ln.same, "C16:snapshot-roundtrip-through-key-type-" \o ln.kt \o "-" \o ln.st)
       [] ln.ev = "keyrt" -> FailT(ln.same_owned /\ ln.back_ok, "C16:key-encoding-roundtrip-" \o ln.kt)
       [] ln.ev = "keyrej" -> FailT(ln.u32_3 /\ ln.u32_5 /\ ln.arr4_3 /\ ln.str_bad_utf8, "C16:key-decoding-accepts-wrong-length")
